@@ -1,3 +1,4 @@
+import tokenize
 from os.path import getmtime
 
 from .util import cached_property, Source
@@ -69,7 +70,9 @@ class SourceModule(Object):
         # wrong encoding) has nothing to offer; it must not make the
         # analysis of the file that imports it fail
         try:
-            source = Source(open(self.filename).read(), self.filename)
+            # the file's own encoding: byte-order mark or coding cookie
+            with tokenize.open(self.filename) as fd:
+                source = Source(fd.read(), self.filename)
             source.tree
         except (SyntaxError, ValueError, EnvironmentError):
             source = Source('', self.filename)
